@@ -1,0 +1,38 @@
+//go:build verif
+
+package inhibit
+
+import (
+	"github.com/prometheus/common/model"
+)
+
+// VerifRuleState is a copy of one rule's source cache keys and index content.
+// It exists only for the verification harness (build tag verif).
+type VerifRuleState struct {
+	// Cached holds the fingerprints of the alerts in the source cache.
+	Cached []model.Fingerprint
+	// Index holds, per indexed equal-labels fingerprint, the source fingerprints indexed under it.
+	Index [][]model.Fingerprint
+}
+
+// VerifState returns the cache and index content of every rule, in rule order.
+func (ih *Inhibitor) VerifState() []VerifRuleState {
+	out := make([]VerifRuleState, 0, len(ih.rules))
+	for _, r := range ih.rules {
+		var s VerifRuleState
+		for _, a := range r.scache.List() {
+			s.Cached = append(s.Cached, a.Fingerprint())
+		}
+		r.sindex.mtx.RLock()
+		for _, fps := range r.sindex.items {
+			class := make([]model.Fingerprint, 0, len(fps))
+			for fp := range fps {
+				class = append(class, fp)
+			}
+			s.Index = append(s.Index, class)
+		}
+		r.sindex.mtx.RUnlock()
+		out = append(out, s)
+	}
+	return out
+}
